@@ -11,8 +11,9 @@ RULE = ('one case = one direct-mode statement of a history executed on a real Se
         'CSRLIN, POS(0), the screen width and all 25 rows of Session.get_chars() are compared with the Lean model; '
         'distinct = distinct (statement, reported cursor before, width, window) tuples')
 EXPLANATION = ('theorems (PcbV.Props.C36) over all histories of the model: cursor_in_screen, csrlin_pos_report, '
-               'report_is_where_next_char_lands, locate_spec, screen_fn_reads_last_written, typewriter_refinement, '
-               'scroll_only_in_window; correspondence: every step of every history, real Session vs compiled model; '
+               'report_is_where_next_char_lands, locate_spec, locate_spec_omitted, screen_fn_reads_last_written, '
+               'typewriter_refinement, typewriter_closed_form (character k at row top + k div W - scrolls, column '
+               'k mod W + 1; also typewriter_no_scroll, closed_form_after_any_history), scroll_only_in_window; correspondence: every step of every history, real Session vs compiled model; '
                'oracle (written from the statement, independent of the model): CSRLIN/POS in range after every step, '
                'valid LOCATE r,c reports exactly r,c and leaves the text alone, out-of-range LOCATE raises Illegal '
                'function call, SCREEN(r,c) equals the cell of the text buffer and the character last written there '
